@@ -766,7 +766,11 @@ impl<T, R: Recognizer<Target = T>> Recognizer for VecRecognizer<T, R> {
     }
 
     fn reset(&mut self) {
-        self.stage = BodyStage::Init;
+        self.stage = if self.is_attr_body {
+            BodyStage::Between
+        } else {
+            BodyStage::Init
+        };
         self.vector.clear();
         self.rec.reset();
     }
@@ -1110,7 +1114,11 @@ where
 
     fn reset(&mut self) {
         self.key = None;
-        self.stage = MapStage::Init;
+        self.stage = if self.is_attr_body {
+            MapStage::Between
+        } else {
+            MapStage::Init
+        };
         self.key_rec.reset();
         self.val_rec.reset();
     }
